@@ -13,7 +13,7 @@ import sys
 ID, K = sys.argv[1], sys.argv[2]
 feat = []
 if '--features' in sys.argv:
-    feat = ['--features', sys.argv[sys.argv.index('--features') + 1]]
+    feat = ['--no-default-features', '--features', sys.argv[sys.argv.index('--features') + 1]]
 W = '/tmp/mut/%s' % ID
 O = '%s/out/m%s' % (W, K)
 D = '/verif/seeded/%s-m%s' % (ID, K)
